@@ -321,6 +321,14 @@ def run(ctx):
               for j, (_, _, d) in enumerate(rules.DEF_RULES) if "Lib." not in d and "\n---\n" not in d and (not quick or (k * 7 + j) % 53 == 0)]
     for i in range(len(RULES)):
         jobs.append(("rules", i))
+    # ordered pairs of types that differ in one attribute (fixed / open length, rank, dimension names, key type, optionality, element type), put where
+    # yardl has to compare them: two cases of one union, the same tag in two unions, a field before / after a version change
+    NEAR = ["int*", "int*3", "int*4", "long*", "int[]", "int[,]", "int[x]", "int[x, y]", "int[3]", "int[3, 4]", "int[x:3]", "string->int", "int->int", "int?", "int", "NRec", "NRec*", "NRec*2", "float[3]", "float[x]"]
+    NEARPAIRS = [(a, b, ctxk) for a in NEAR for b in NEAR if a != b for ctxk in ("cases", "tags", "evolve", "switch")]
+    if quick:
+        NEARPAIRS = [x for i, x in enumerate(NEARPAIRS) if i % 3 == 0]
+    for i in range(len(NEARPAIRS)):
+        jobs.append(("nearpair", i))
     n_expr = len(fuzzgen.EXPRS) + (60 if quick else 2000)
     for i in range(n_expr):
         jobs.append(("expr", i))
@@ -365,6 +373,25 @@ def run(ctx):
             files = {root_rel + "/_package.yml": files[root_rel + "/_package.yml"] if (root_rel + "/_package.yml") in files and "imports" not in files[root_rel + "/_package.yml"] else "namespace: %s\njson:\n  outputDir: ../out/json\n" % pkg.ns,
                      root_rel + "/model.yml": rules.HELPERS + rules.embed(pos, ty, "Inj") + (second or "")}
             desc += " rule construct %s at position %s%s" % (rid, pos, " + a second violating definition" if second else "")
+        elif kind == "nearpair":
+            ta, tb, ctxk = NEARPAIRS[i]
+            qa, qb = "'%s'" % ta, "'%s'" % tb
+            rec = "NRec: !record\n  fields:\n    q: int\n"
+            man = "namespace: %s\njson:\n  outputDir: ../out/json\npython:\n  outputDir: ../out/python\n" % pkg.ns
+            if ctxk == "cases":
+                body = rec + "Np: !record\n  fields:\n    u: !union {first: %s, second: %s}\n    n: [null, !union {first: %s, second: %s}]\n" % (qa, qb, qa, qb)
+                files = {root_rel + "/_package.yml": man, root_rel + "/model.yml": body}
+            elif ctxk == "tags":
+                body = rec + "Np: !record\n  fields:\n    u: !union {first: %s, other: bool}\n    w: !union {first: %s, other: bool}\n" % (qa, qb)
+                files = {root_rel + "/_package.yml": man, root_rel + "/model.yml": body}
+            elif ctxk == "switch":
+                body = rec + "Np: !record\n  fields:\n    u: !union {first: %s, second: bool}\n  computedFields:\n    c:\n      !switch u:\n        %s x: 1\n        bool y: 2\n" % (qa, tb)
+                files = {root_rel + "/_package.yml": man, root_rel + "/model.yml": body}
+            else:
+                tmpl = rec + "Np: !record\n  fields:\n    f: %s\nPp: !protocol\n  sequence:\n    s: %s\n    r: Np\n    t: !stream\n      items: %s\n"
+                files = {root_rel + "/_package.yml": man + "versions:\n  v0: ../nearold\n", root_rel + "/model.yml": tmpl % (qb, qb, qb),
+                         os.path.join(os.path.dirname(root_rel), "nearold/_package.yml"): "namespace: %s\n" % pkg.ns, os.path.join(os.path.dirname(root_rel), "nearold/model.yml"): tmpl % (qa, qa, qa)}
+            desc += " near-identical types %s / %s compared in context %s" % (ta, tb, ctxk)
         elif kind == "deep":
             files = {k: v for k, v in files.items() if not k.startswith(root_rel + "/") or k.endswith("_package.yml")}
             files[root_rel + "/model.yml"] = DEEP[i][1]
@@ -422,7 +449,7 @@ def run(ctx):
         ctx.case(key)
         ctx.count("kind." + kind)
         procs = {"validate": cli.run_cli("validate", pkgdir, home)}
-        if i % 2 == 0 or kind in ("nest", "manifest", "tagkind", "mtagkind", "rules"):
+        if i % 2 == 0 or kind in ("nest", "manifest", "tagkind", "mtagkind", "rules", "nearpair"):
             procs["generate"] = cli.run_cli("generate", pkgdir, home)
         nviol = len(ctx.violations) + sum(v["n"] for v in ctx.known_hits.values())
         judge(ctx, case_dir, pkgdir, kind, desc, procs)
